@@ -24,6 +24,9 @@ func failingProfile(t *Tape) *Profile {
 	if t.Chance("pf.easy", 40) {
 		pf.FailCondEasy = true
 	}
+	if curTier == "thorough" && t.Chance("pf.deep", 25) {
+		pf.MaxStmts, pf.MaxFail = 14, 6
+	}
 	return pf
 }
 
